@@ -35,6 +35,11 @@ CHECKS = {
                   "Tie: sort variants (sequential and parallel, pools 1-16) on structures with duplicate/unordered identifiers and many ties; renumber; every present and sampled absent (serial, altloc) query on renumbered structures, binary_find_atom and _mut; add_bond + bonds().",
              note="PARTIAL: the four-level composition 'PDB::binary_find_atom = linear scan on every renumbered structure' is proved only in its generic bisection core and at conformer level; the chain/model/structure composition is decided by the correspondence and the oracle (exhaustive over present pairs). Parallel sorts are exercised, schedules not modelled.",
              technique="Lean 4 (core mergeSort stability/permutation lemmas, inductions for renumber, bisection = find) + differential correspondence", ref="DESIGN §7 C11"),
+ 'C10': dict(text="Theorems, one frame-and-effect statement per operation family: remove_*_by = filter of exactly the matching elements with every container keeping identifier and position; by-identifier/serial/name removal = eraseP (first match only) and reports existence; index removal/insertion exact in range, refused otherwise; "
+                  "remove_empty leaves no empty container at any level, keeps all atoms in order; remove_models_except keeps exactly the listed models in original order and reports the number removed, or refuses without change; join/extend are concatenations keeping the receiver's own data; setters store the normalised value or leave the element unchanged. "
+                  "Tie: after every step of histories over 73 operation kinds (result token + fingerprint per step, full snapshot at the end): all histories of length <= 2 (quick) / 3 (thorough) over a fixed 40-operation alphabet on three seed structures, random histories to length 200, out-of-range paths and indices, rejected texts and non-finite numbers; par_ twins under pools 1-16.",
+             note="A Rust panic (Vec::remove / insert out of range) is modelled as `none` and the history stops there on both sides; state after a panic is not compared. Element inference inside Atom::new is outside this property (atoms enter the model as constructed).",
+             technique="Lean 4 theorems over list functions (filter/eraseP/flatMap) + step-by-step differential correspondence of operation histories", ref="DESIGN §7 C10"),
 }
 NOT_APPLICABLE = {}
 ALL = ['C%02d' % i for i in range(1, 19)]
